@@ -37,6 +37,7 @@ type Contract struct {
 	KeyedInv   map[string][]Clause // invariants keyed by loop source text ("range x.y", "for i < n")
 	KeyedDec   map[string]Clause
 	KeyOrder   []string            // loop keys in order of first appearance in the contract
+	Closures   map[int]Clause      // closure[k]: functional specification of the k-th function literal ($0, $1 ... are its parameters)
 	Asserts    map[string][]Clause // "call os.Symlink#0" -> assertions checked right before that call
 	Modifies   []SExpr
 	ModAll     bool
@@ -157,6 +158,10 @@ func (w *World) resolveType(p *packages.Package, pos token.Pos, text string) (ty
 		}
 	}
 	if err != nil {
+		// last resort: pkgname.Type resolved against every loaded package of that name
+		if t := w.resolveQualified(text); t != nil {
+			return t, nil
+		}
 		return nil, fmt.Errorf("cannot resolve type %q: %v", text, err)
 	}
 	if !tv.IsType() {
@@ -372,7 +377,7 @@ func parseFuncHeader(hdr string) (*ast.FuncDecl, error) {
 func parseClauses(c *Contract, d *directive) error {
 	// group continuation lines into clauses
 	var clauses []string
-	kw := regexp.MustCompile(`^(requires|ensures|invariant|decreases|assert|modifies|let|pure|trusted|noinline)\b`)
+	kw := regexp.MustCompile(`^(requires|ensures|invariant|decreases|assert|closure|modifies|let|pure|trusted|noinline)\b`)
 	for _, ln := range d.lines {
 		if kw.MatchString(ln) {
 			clauses = append(clauses, ln)
@@ -434,10 +439,19 @@ func parseClauses(c *Contract, d *directive) error {
 				c.Requires = append(c.Requires, clause)
 			case "ensures":
 				c.Ensures = append(c.Ensures, clause)
+			case "closure":
+				n, err := strconv.Atoi(m[3])
+				if err != nil {
+					return fmt.Errorf("closure[k] needs the ordinal of the function literal: %q", cl)
+				}
+				if c.Closures == nil {
+					c.Closures = map[int]Clause{}
+				}
+				c.Closures[n] = clause
 			case "assert":
 				key := strings.Join(strings.Fields(m[3]), " ")
-				if !strings.HasPrefix(key, "call ") {
-					return fmt.Errorf("assert[call <callee>#k] expected: %q", cl)
+				if !strings.HasPrefix(key, "call ") && !strings.HasPrefix(key, "return") {
+					return fmt.Errorf("assert[call <callee>#k] or assert[return#k] expected: %q", cl)
 				}
 				if !strings.Contains(key, "#") {
 					key += "#0"
@@ -525,7 +539,7 @@ func ifaceMethodKey(m *types.Func) string {
 
 // splitClauseHead parses "keyword[label with [nested] brackets] text" into {whole, keyword, "[label]", label, text}.
 func splitClauseHead(cl string) []string {
-	for _, kw := range []string{"requires", "ensures", "invariant", "decreases", "assert"} {
+	for _, kw := range []string{"requires", "ensures", "invariant", "decreases", "assert", "closure"} {
 		if !strings.HasPrefix(cl, kw) {
 			continue
 		}
@@ -557,4 +571,39 @@ func splitClauseHead(cl string) []string {
 		return []string{cl, kw, "[" + label + "]", label, strings.TrimSpace(rest)}
 	}
 	return nil
+}
+
+var qualRe = regexp.MustCompile(`^((?:\*|\[\])*)([A-Za-z_]\w*)\.([A-Za-z_]\w*)$`)
+
+func (w *World) resolveQualified(text string) types.Type {
+	m := qualRe.FindStringSubmatch(strings.ReplaceAll(text, " ", ""))
+	if m == nil {
+		return nil
+	}
+	var found types.Type
+	for _, p := range w.Pkgs {
+		if p.Types == nil || p.Types.Name() != m[2] {
+			continue
+		}
+		if obj := p.Types.Scope().Lookup(m[3]); obj != nil {
+			if tn, ok := obj.(*types.TypeName); ok {
+				found = tn.Type()
+				break
+			}
+		}
+	}
+	if found == nil {
+		return nil
+	}
+	pre := m[1]
+	for len(pre) > 0 {
+		if strings.HasSuffix(pre, "*") {
+			found = types.NewPointer(found)
+			pre = pre[:len(pre)-1]
+		} else {
+			found = types.NewSlice(found)
+			pre = pre[:len(pre)-2]
+		}
+	}
+	return found
 }
